@@ -459,6 +459,18 @@ M("C08", "omega-identity-of-other-model", "renormalizer/mps/gs.py", "identity = 
   "identity built on the state's model (differs after on-the-fly swaps / for a sub-model operator)")
 M("C08", "omega-shift-sign", "renormalizer/mps/gs.py", "mpo = mpo.add(identity.scale(-omega))", "mpo = mpo.add(identity.scale(omega))", ["shift-operator"], "H + omega instead of H - omega")
 T("C08", "twin-omega-sub", "renormalizer/mps/gs.py", "mpo = mpo.add(identity.scale(-omega))", "mpo = mpo.add(identity.scale(omega).scale(-1))", "shift written as two scalings")
+M("C04", "push-cano-system-swapped", MP, '        qnbigl, qnbigr, _ = self._get_big_qn([idx])\n        system = "L" if self.to_right else "R"', '        qnbigl, qnbigr, _ = self._get_big_qn([idx])\n        system = "R" if self.to_right else "L"',
+  ["system-direction", "_push_cano"], "_push_cano derives the system side from the direction with the opposite mapping")
+M("C04", "ensure-left-wrong-end", MP, "            self.move_qnidx(0)\n            self.to_right = True", "            self.move_qnidx(self.site_num - 1)\n            self.to_right = True",
+  ["ensure-consistency", "ensure_left_canonical"], "ensure_left_canonical starts the sweep to the right with the label centre at the last site")
+M("C04", "ensure-right-flag", MP, "            self.move_qnidx(self.site_num - 1)\n            self.to_right = False", "            self.move_qnidx(self.site_num - 1)\n            self.to_right = True",
+  ["ensure-consistency", "ensure_right_canonical"], "ensure_right_canonical sets the direction flag the wrong way")
+M("C04", "ensure-left-trusts-flag", MP, "            self.to_right\n            or self.qnidx != self.site_num - 1\n            or (not self.check_left_canonical(rtol, atol))", "            self.qnidx != self.site_num - 1\n            or (not self.check_left_canonical(rtol, atol))",
+  ["ensure-consistency", "ensure_left_canonical"], "ensure_left_canonical no longer looks at the direction flag: a left-canonical state keeps to_right=True")
+M("C04", "check-left-short", MP, "        for i in range(len(self) - 1):\n            if not self[i].check_lortho(rtol, atol):", "        for i in range(len(self) - 2):\n            if not self[i].check_lortho(rtol, atol):",
+  ["check-mirror", "check_left_canonical"], "check_left_canonical skips the last-but-one site")
+M("C04", "check-right-wrong-orth", MP, "            if not self[i].check_rortho(rtol, atol):", "            if not self[i].check_lortho(rtol, atol):",
+  ["check-mirror", "check_right_canonical"], "check_right_canonical tests left-orthogonality")
 M("C06", "canonicalise-switch-always", "renormalizer/mps/mp.py", "        if (not self.to_right and idx == 1) or (self.to_right and idx == self.site_num - 2):\n            self._switch_direction()", "        self._switch_direction()", ["sweep-centre"],
   "direction switched after partial sweeps too")
 M("C02", "graph-cover-le", "renormalizer/mps/symbolic_mpo.py", "    if non_red.shape[0] < non_red.shape[1]:\n        for i in range(non_red.shape[0]):", "    if non_red.shape[0] <= non_red.shape[1]:\n        for i in range(non_red.shape[0]):", ["terminal-cover"],
